@@ -86,7 +86,9 @@ func cloneProof(p u.Proof) u.Proof {
 	return u.Proof{Targets: cloneU64(p.Targets), Proof: cloneHashes(p.Proof)}
 }
 
-func cloneProofTH(t []uint64, h []Hash) u.Proof { return u.Proof{Targets: cloneU64(t), Proof: cloneHashes(h)} }
+func cloneProofTH(t []uint64, h []Hash) u.Proof {
+	return u.Proof{Targets: cloneU64(t), Proof: cloneHashes(h)}
+}
 
 func eqHashes(a, b []Hash) bool {
 	if len(a) != len(b) {
@@ -127,7 +129,9 @@ func shortHs(hs []Hash) string {
 	return s + "]"
 }
 
-func proofStr(p u.Proof) string { return fmt.Sprintf("{targets:%v proof:%s}", p.Targets, shortHs(p.Proof)) }
+func proofStr(p u.Proof) string {
+	return fmt.Sprintf("{targets:%v proof:%s}", p.Targets, shortHs(p.Proof))
+}
 
 // Apply applies one block (already proven by the caller) to the instance. For a partial map
 // forest the deletions are first verified with remember=true, as its callers must do.
